@@ -68,6 +68,9 @@ Ranges(e) ==
                                   IN IF HasVals(b, "n1") THEN R[i].max1none \/ R[i].max1 # MaxV(b, "n1") ELSE ~R[i].max1none
            THEN {"C16_range_nested_max"} ELSE {})
      \cup (IF \E i \in DOMAIN T : T[i].count # Len(RangeBucket(D, "t1", T[i].lo, T[i].hi)) THEN {"C16_date_range_bucket_count"} ELSE {})
+     \* nested metrics over a field that nothing else in the request mentions
+     \cup (IF \E i \in DOMAIN R : R[i].sum3 # Sum(RangeBucket(D, "n1", R[i].lo, R[i].hi), "n3") THEN {"C16_range_nested_sum_of_private_field"} ELSE {})
+     \cup (IF \E i \in DOMAIN T : T[i].sum3 # Sum(RangeBucket(D, "t1", T[i].lo, T[i].hi), "n3") THEN {"C16_date_range_nested_sum_of_private_field"} ELSE {})
 
 TAgg ==
   /\ Step("agg")
